@@ -8,12 +8,14 @@ import re
 from collections import namedtuple
 
 from ural.utils import pathsplit, safe_urlsplit, SplitResult
-from ural.patterns import DOMAIN_TEMPLATE
+from ural.patterns import DOMAIN_TEMPLATE, ASCII
 from ural.get_hostname import get_hostname
 
 INSTAGRAM_POST_SHORTCODE_RE = re.compile(r"^[a-zA-Z0-9_\-]+$")
 INSTAGRAM_USERNAME_RE = re.compile(r"^[a-zA-Z0-9_\-\.]+$")
-INSTAGRAM_DOMAIN_RE = re.compile(r"(?:^|\.)instagram\.com\s*$", re.I)
+# NOTE: hostnames are matched caselessly over ascii letters only (with re.I alone,
+# "tw\u0131tter.com", with a dotless i, is read as "twitter.com")
+INSTAGRAM_DOMAIN_RE = re.compile(r"(?:^|\.)instagram\.com\s*$", re.I | ASCII)
 INSTAGRAM_URL_RE = re.compile(DOMAIN_TEMPLATE % r"(?:[^.]+\.)*instagram.com", re.I)
 INSTAGRAM_NOT_A_USER_SET = {
     "accounts",
